@@ -37,28 +37,23 @@ size_t fread(void *ptr, size_t size, size_t n, FILE *f) {
   __CPROVER_assume(r <= n);
   return r;
 }
-int fscanf(FILE *f, const char *fmt, ...) {
-  va_list ap;
-  va_start(ap, fmt);
-  int ret;
-  if (vp_io.calls++ == 0) { /* "%d %d %ld\n%ld\n\n" */
-    int *pm = va_arg(ap, int *), *pn = va_arg(ap, int *);
-    long *pp = va_arg(ap, long *), *pz = va_arg(ap, long *);
-    if (vp_io.header_items >= 1) *pm = vp_io.hm;
-    if (vp_io.header_items >= 2) *pn = vp_io.hn;
-    if (vp_io.header_items >= 3) *pp = vp_io.hp;
-    if (vp_io.header_items >= 4) *pz = vp_io.hnz;
-    ret = vp_io.header_items;
-  } else { /* "%ld\n" */
-    long *pj = va_arg(ap, long *);
-    if (vp_io.cursor < vp_io.ntok) {
-      *pj = vp_io.tok[vp_io.cursor++];
-      ret = 1;
-    } else
-      ret = -1;
+int vp_fscanf4(FILE *f, const char *fmt, int *pm, int *pn, long *pp, long *pz) { /* "%d %d %ld\n%ld\n\n" */
+  vp_io.calls++;
+  /* all four targets are always written (a real fscanf leaves unparsed ones untouched): io.c does not read them when
+     fewer than 4 items were parsed, and unconditional concrete writes keep the matrix dimensions concrete for the verifier */
+  *pm = vp_io.hm;
+  *pn = vp_io.hn;
+  *pp = vp_io.hp;
+  *pz = vp_io.hnz;
+  return vp_io.header_items;
+}
+int vp_fscanf1(FILE *f, const char *fmt, long *pj) { /* "%ld\n" */
+  vp_io.calls++;
+  if (vp_io.cursor < vp_io.ntok) {
+    *pj = vp_io.tok[vp_io.cursor++];
+    return 1;
   }
-  va_end(ap);
-  return ret;
+  return -1;
 }
 time_t time(time_t *t) {
   time_t r;
